@@ -17,6 +17,7 @@ import (
 
 	"github.com/mattn/anko/env"
 	"github.com/mattn/anko/parser"
+	"github.com/mattn/anko/vhook"
 	"verif/engine/common"
 	"verif/engine/explore"
 	"verif/engine/lib/stepctx"
@@ -195,7 +196,14 @@ type result struct {
 
 func newEnv(logf func(i int64)) *env.Env {
 	e := env.NewEnv()
-	e.Define("s", func(i int64) int64 { logf(i); return i })
+	e.Define("s", func(i int64) int64 {
+		// the probe is a schedule point too, so that the cancellation can also land
+		// while a script spins in a place where the interpreter does not poll the
+		// caller's context (the callback adapter)
+		logf(i)
+		vhook.Yield("probe")
+		return i
+	})
 	long := make([]interface{}, spinN+3)
 	lm := map[interface{}]interface{}{}
 	for i := range long {
